@@ -169,42 +169,24 @@ theorem defaultInode_map : defaultInode.map f = defaultInode := by
   rw [resp_fix hf "framer" (by simp [Keywords]), resp_fix hf "me" (by simp [Keywords]),
     resp_fix hf "frame" (by simp [Keywords]), resp_fix hf "actor" (by simp [Keywords])]
 
-theorem prepend_map (c : Ctx) (inode : Option (List String)) (parts : List String) :
-    prepend (c.map f) (inode.map (List.map f)) (parts.map f) = (prepend c inode parts).map f := by
-  unfold prepend
-  simp only [framerParts_map hf, overParts_map hf]
-  -- the act-inode step
-  have step1 :
-      (match inode.map (List.map f) with
-        | some ip =>
-          if parts.map f = [] ∨ ¬ ((parts.map f).head? = some "framer" ∨ (parts.map f).head? = some "me") then
-            (if ip = [] ∧ (overParts c).map f = [] ∧ (framerParts c).map f = [] then defaultInode else ip) ++ parts.map f
-          else parts.map f
-        | none => parts.map f)
-      = (match inode with
-        | some ip =>
-          if parts = [] ∨ ¬ (parts.head? = some "framer" ∨ parts.head? = some "me") then
-            (if ip = [] ∧ overParts c = [] ∧ framerParts c = [] then defaultInode else ip) ++ parts
-          else parts
-        | none => parts).map f := by
-    cases inode with
-    | none => rfl
-    | some ip =>
-      simp only [Option.map_some, List.map_eq_nil_iff, head?_kw hf "framer" (by simp [Keywords]),
-        head?_kw hf "me" (by simp [Keywords])]
-      by_cases h1 : parts = [] ∨ ¬ (parts.head? = some "framer" ∨ parts.head? = some "me")
-      · simp only [h1, if_true]
-        by_cases h2 : ip = [] ∧ overParts c = [] ∧ framerParts c = []
-        · simp only [h2, and_self, if_true, List.map_append, defaultInode_map hf]
-        · simp only [h2, if_false, List.map_append]
-      · simp only [h1, if_false]
-  rw [step1]
-  generalize (match inode with
-        | some ip =>
-          if parts = [] ∨ ¬ (parts.head? = some "framer" ∨ parts.head? = some "me") then
-            (if ip = [] ∧ overParts c = [] ∧ framerParts c = [] then defaultInode else ip) ++ parts
-          else parts
-        | none => parts) = q
+theorem addInode_map (fp op : List String) (inode : Option (List String)) (parts : List String) :
+    addInode (fp.map f) (op.map f) (inode.map (List.map f)) (parts.map f)
+      = (addInode fp op inode parts).map f := by
+  cases inode with
+  | none => rfl
+  | some ip =>
+    simp only [addInode, Option.map_some, List.map_eq_nil_iff, head?_kw hf "framer" (by simp [Keywords]),
+      head?_kw hf "me" (by simp [Keywords])]
+    by_cases h1 : parts = [] ∨ ¬ (parts.head? = some "framer" ∨ parts.head? = some "me")
+    · simp only [h1, if_true]
+      by_cases h2 : ip = [] ∧ op = [] ∧ fp = []
+      · simp only [h2, and_self, if_true, List.map_append, defaultInode_map hf]
+      · simp only [h2, if_false, List.map_append]
+    · simp only [h1, if_false]
+
+theorem addCtx_map (fp op : List String) (q : List String) :
+    addCtx (fp.map f) (op.map f) (q.map f) = (addCtx fp op q).map f := by
+  unfold addCtx
   simp only [absOrFramer_map hf, headMe_map hf]
   by_cases h1 : absOrFramer q = true
   · simp [h1]
@@ -217,20 +199,26 @@ theorem prepend_map (c : Ctx) (inode : Option (List String)) (parts : List Strin
       · simp [h3]
     · simp only [h2, Bool.false_eq_true, if_false]
       rw [← List.map_append, absOrFramer_map hf]
-      by_cases h3 : absOrFramer (overParts c ++ q) = true
+      by_cases h3 : absOrFramer (op ++ q) = true
       · simp [h3]
       · simp [h3]
 
+theorem prepend_map (c : Ctx) (inode : Option (List String)) (parts : List String) :
+    prepend (c.map f) (inode.map (List.map f)) (parts.map f) = (prepend c inode parts).map f := by
+  unfold prepend
+  rw [framerParts_map hf, overParts_map hf, addInode_map hf, addCtx_map hf]
+
 theorem substActor_map (c : Ctx) (l : List String) :
     substActor (c.map f) (l.map f) = (substActor c l).map (List.map f) := by
+  have hme : f "me" = "me" := resp_fix hf "me" (by simp [Keywords])
   cases l with
   | nil => rfl
   | cons p rest =>
     simp only [List.map_cons, substActor]
     have hp : (f p = "me") ↔ (p = "me") := hf "me" (by simp [Keywords]) p
     by_cases h : p = "me"
-    · have h' : f p = "me" := hp.2 h
-      simp only [h, h', if_true]
+    · subst h
+      simp only [hme, if_true]
       cases ha : c.actor with
       | none => simp [Ctx.map, ha, Except.map]
       | some a => simp [Ctx.map, ha, Except.map]
@@ -240,16 +228,18 @@ theorem substActor_map (c : Ctx) (l : List String) :
 theorem substFramerName_map (c : Ctx) (p : String) :
     substFramerName (c.map f) (f p) = (substFramerName c p).map f := by
   unfold substFramerName
+  have hme : f "me" = "me" := resp_fix hf "me" (by simp [Keywords])
+  have hmain : f "main" = "main" := resp_fix hf "main" (by simp [Keywords])
   have h1 : (f p = "me") ↔ (p = "me") := hf "me" (by simp [Keywords]) p
   have h2 : (f p = "main") ↔ (p = "main") := hf "main" (by simp [Keywords]) p
   by_cases a : p = "me"
-  · simp [a, h1.2 a, Ctx.map, Except.map]
+  · subst a; simp [hme, Ctx.map, Except.map]
   · have a' : ¬ f p = "me" := fun e => a (h1.1 e)
     by_cases b : p = "main"
-    · have b' : f p = "main" := h2.2 b
-      simp only [a', b', if_true, if_false]
-      rw [b] at a
-      simp only [b, if_true]
+    · subst b
+      simp only [hmain, if_true]
+      have : ¬ ("main" = "me") := by decide
+      simp only [this, if_false]
       cases hm : c.mains with
       | nil => simp [Ctx.map, hm, Except.map]
       | cons m t => simp [Ctx.map, hm, MainC.map, Except.map]
@@ -259,20 +249,23 @@ theorem substFramerName_map (c : Ctx) (p : String) :
 theorem substFrameName_map (c : Ctx) (p : String) :
     substFrameName (c.map f) (f p) = (substFrameName c p).map f := by
   unfold substFrameName
+  have hme : f "me" = "me" := resp_fix hf "me" (by simp [Keywords])
+  have hmain : f "main" = "main" := resp_fix hf "main" (by simp [Keywords])
   have h1 : (f p = "me") ↔ (p = "me") := hf "me" (by simp [Keywords]) p
   have h2 : (f p = "main") ↔ (p = "main") := hf "main" (by simp [Keywords]) p
   have hempty : f "" = "" := resp_fix hf "" (by simp [Keywords])
   by_cases a : p = "me"
-  · simp only [a, h1.2 a, if_true, Except.map]
+  · subst a
+    simp only [hme, if_true, Except.map]
     cases hfr : c.frames with
     | nil => simp [Ctx.map, hfr, hempty]
     | cons x t => simp [Ctx.map, hfr, FrameC.map]
   · have a' : ¬ f p = "me" := fun e => a (h1.1 e)
     by_cases b : p = "main"
-    · have b' : f p = "main" := h2.2 b
-      simp only [a', b', if_true, if_false]
-      rw [b] at a
-      simp only [b, if_true]
+    · subst b
+      simp only [hmain, if_true]
+      have : ¬ ("main" = "me") := by decide
+      simp only [this, if_false]
       cases hm : c.mains with
       | nil => simp [Ctx.map, hm, Except.map]
       | cons m t =>
@@ -281,6 +274,93 @@ theorem substFrameName_map (c : Ctx) (p : String) :
         | cons x t2 => simp [Ctx.map, hm, MainC.map, hch, FrameC.map, Except.map]
     · have b' : ¬ f p = "main" := fun e => b (h2.1 e)
       simp [a, a', b, b', Except.map]
+
+theorem substFramer_map (c : Ctx) (l : List String) :
+    substFramer (c.map f) (l.map f) = (substFramer c l).map (List.map f) := by
+  have hframer : f "framer" = "framer" := resp_fix hf "framer" (by simp [Keywords])
+  have hframe : f "frame" = "frame" := resp_fix hf "frame" (by simp [Keywords])
+  have hactor : f "actor" = "actor" := resp_fix hf "actor" (by simp [Keywords])
+  cases l with
+  | nil => rfl
+  | cons p1 rest =>
+    simp only [List.map_cons, substFramer, bind, Except.bind]
+    rw [substFramerName_map hf]
+    cases h1 : substFramerName c p1 with
+    | error e => simp [Except.map]
+    | ok n1 =>
+      simp only [Except.map]
+      cases rest with
+      | nil => simp [pure, Except.pure, hframer]
+      | cons p2 rest3 =>
+        simp only [List.map_cons]
+        have i2 : (f p2 = "frame") ↔ (p2 = "frame") := hf "frame" (by simp [Keywords]) p2
+        have i2a : (f p2 = "actor") ↔ (p2 = "actor") := hf "actor" (by simp [Keywords]) p2
+        by_cases a : p2 = "frame"
+        · subst a
+          simp only [hframe, if_true]
+          cases rest3 with
+          | nil => rfl
+          | cons p3 rest4 =>
+            simp only [List.map_cons, bind, Except.bind]
+            rw [substFrameName_map hf]
+            cases h3 : substFrameName c p3 with
+            | error e => simp [Except.map]
+            | ok n3 =>
+              simp only [Except.map]
+              cases rest4 with
+              | nil => simp [pure, Except.pure, hframer, hframe]
+              | cons p4 rest5 =>
+                simp only [List.map_cons]
+                have i4 : (f p4 = "actor") ↔ (p4 = "actor") := hf "actor" (by simp [Keywords]) p4
+                by_cases b : p4 = "actor"
+                · subst b
+                  simp only [hactor, if_true, bind, Except.bind]
+                  rw [substActor_map hf]
+                  cases h5 : substActor c rest5 with
+                  | error e => simp [Except.map]
+                  | ok t => simp [Except.map, pure, Except.pure, hframer, hframe, hactor]
+                · have b' : ¬ f p4 = "actor" := fun e => b (i4.1 e)
+                  simp [b, b', pure, Except.pure, hframer, hframe]
+        · have a' : ¬ f p2 = "frame" := fun e => a (i2.1 e)
+          simp only [a, a', if_false]
+          by_cases b : p2 = "actor"
+          · subst b
+            simp only [hactor, if_true, bind, Except.bind]
+            rw [substActor_map hf]
+            cases h5 : substActor c rest3 with
+            | error e => simp [Except.map]
+            | ok t => simp [Except.map, pure, Except.pure, hframer, hactor]
+          · have b' : ¬ f p2 = "actor" := fun e => b (i2a.1 e)
+            simp [b, b', pure, Except.pure, hframer]
+
+/-- **equivariance of `Act.resolvePath`** under every keyword-respecting renaming of segments -/
+theorem resolveParts_map (c : Ctx) (inode : Option (List String)) (parts : List String) :
+    resolveParts (c.map f) (inode.map (List.map f)) (parts.map f)
+      = (resolveParts c inode parts).map (List.map f) := by
+  unfold resolveParts
+  have habs : ((parts.map f).head? = some "") ↔ (parts.head? = some "") := head?_kw hf "" (by simp [Keywords]) parts
+  have hq : (if (parts.map f).head? = some "" then parts.map f
+      else prepend (c.map f) (inode.map (List.map f)) (parts.map f))
+      = (if parts.head? = some "" then parts else prepend c inode parts).map f := by
+    by_cases h : parts.head? = some ""
+    · simp [h, habs.2 h]
+    · have h' : ¬ (parts.map f).head? = some "" := fun e => h (habs.1 e)
+      simp only [h, h', if_false]
+      exact prepend_map hf c inode parts
+  simp only [hq]
+  generalize (if parts.head? = some "" then parts else prepend c inode parts) = q
+  cases q with
+  | nil => rfl
+  | cons p0 rest =>
+    simp only [List.map_cons]
+    have i0 : (f p0 = "framer") ↔ (p0 = "framer") := hf "framer" (by simp [Keywords]) p0
+    by_cases a : p0 = "framer"
+    · subst a
+      have a' : f "framer" = "framer" := resp_fix hf "framer" (by simp [Keywords])
+      simp only [a', if_true]
+      exact substFramer_map hf c rest
+    · have a' : ¬ f p0 = "framer" := fun e => a (i0.1 e)
+      simp [a, a', Except.map]
 
 end
 end Ioflo.ResolvePath
